@@ -1082,4 +1082,217 @@ example :
     isFQM a = true ∧ isFQM b = true ∧ nameEqualFold a b = true ∧ a ≠ b := by decide
 
 
+/-! ## 22. end to end: handlers (name → manifest path, digest → blob path) -/
+
+
+/-! what `routes.go getExistingName` may return for the request name `n` over the names `es` of the store (keys of
+    `Manifests(true)`): every part is the request's own part or the SAME-KIND part of an existing name (the exact-match and
+    whole-name EqualFold branches return an element of `es`, the part-wise branch replaces parts one by one).  The relation
+    over-approximates the function, so the theorem below holds whatever order / matching rule the lookup uses. -/
+def ExistingResult (es : List Name) (n r : Name) : Prop :=
+  (r.host = n.host ∨ ∃ e ∈ es, r.host = e.host) ∧ (r.ns = n.ns ∨ ∃ e ∈ es, r.ns = e.ns) ∧
+  (r.model = n.model ∨ ∃ e ∈ es, r.model = e.model) ∧ (r.tag = n.tag ∨ ∃ e ∈ es, r.tag = e.tag)
+
+theorem existingResult_fq (es : List Name) (hes : ∀ e ∈ es, isFQM e = true) (n r : Name) (hn : isFQM n = true)
+    (hr : ExistingResult es n r) : isFQM r = true := by
+  have part : ∀ (k : Kind) (f : Name → Bytes), validPartM k (f n) = true → (∀ e ∈ es, validPartM k (f e) = true) →
+      (f r = f n ∨ ∃ e ∈ es, f r = f e) → validPartM k (f r) = true := by
+    intro k f h1 h2 h3
+    rcases h3 with h | ⟨e, he, h⟩
+    · rw [h]; exact h1
+    · rw [h]; exact h2 e he
+  have split : ∀ e, isFQM e = true → validPartM .host e.host = true ∧ validPartM .ns e.ns = true ∧
+      validPartM .model e.model = true ∧ validPartM .tag e.tag = true := by
+    intro e he
+    simp only [isFQM, Bool.and_eq_true] at he
+    exact ⟨he.1.1.1, he.1.1.2, he.1.2, he.2⟩
+  obtain ⟨a, b, c, d⟩ := split n hn
+  obtain ⟨h1, h2, h3, h4⟩ := hr
+  simp only [isFQM, Bool.and_eq_true]
+  exact ⟨⟨⟨part .host (·.host) a (fun e he => (split e (hes e he)).1) h1,
+    part .ns (·.ns) b (fun e he => (split e (hes e he)).2.1) h2⟩,
+    part .model (·.model) c (fun e he => (split e (hes e he)).2.2.1) h3⟩,
+    part .tag (·.tag) d (fun e he => (split e (hes e he)).2.2.2) h4⟩
+
+theorem handler_paths_agree (root : Bytes) (r : Name) (h : isFQM r = true) :
+    handlerManifestPath root r = (filepathM r).map (fun fp => pathJoin [root, sManifests, fp]) := by
+  have e : toStr r = (ModelPath.fullTagname ⟨sHttps, r.host, r.ns, r.model, r.tag⟩) := by
+    rw [toStr_fq (fqParts_of_isFQM h)]; simp [ModelPath.fullTagname]
+  have hv : isFQM (ModelPath.toName ⟨sHttps, r.host, r.ns, r.model, r.tag⟩) = true := by
+    simpa [ModelPath.toName] using h
+  unfold handlerManifestPath
+  rw [e, (modelpath_print_parse _ hv).1]
+  simp only [mpManifestPath, ModelPath.toName]
+  cases r; simp [h, filepathM]
+
+/-- **End to end, every name-taking handler** (generate / chat / embed / embeddings / show / delete / pull / push / create
+    incl. its `from:` name / copy source and destination): for EVERY request string `s`, every models-directory string, every
+    store content `rels` (the files `Manifests` enumerates) and every result `r` the lookup `getExistingName` can return:
+    the handler refuses before touching the store (`ParseName(s)` is not valid), or the one manifest path it goes on to use is
+    the component stack of `Clean(models)` followed by exactly `manifests/<host>/<ns>/<model>/<tag>` of safe components. -/
+theorem handler_name_confined (root : Bytes) (hroot : root ≠ []) (rels : List Bytes) (s : Bytes) (r : Name)
+    (hr : ExistingResult ((manifestsEnum rels).map Prod.fst) (parseName s) r) :
+    isFQM (parseName s) = false ∨
+    (isFQM r = true ∧
+     handlerManifestPath root r = some (renderPath (isRooted root) (rootStack root ++ [sManifests, r.host, r.ns, r.model, r.tag])) ∧
+     ∀ c ∈ [r.host, r.ns, r.model, r.tag], SafeComp c) := by
+  cases hn : isFQM (parseName s) with
+  | false => exact Or.inl rfl
+  | true =>
+    right
+    have hes : ∀ e ∈ (manifestsEnum rels).map Prod.fst, isFQM e = true := by
+      intro e he
+      obtain ⟨⟨n, p⟩, hmem, rfl⟩ := List.mem_map.mp he
+      exact (manifestsEnum_sound rels n p hmem).2.1
+    have hfq := existingResult_fq _ hes _ r hn hr
+    refine ⟨hfq, ?_, fq_safe hfq⟩
+    have e : toStr r = (ModelPath.fullTagname ⟨sHttps, r.host, r.ns, r.model, r.tag⟩) := by
+      rw [toStr_fq (fqParts_of_isFQM hfq)]; simp [ModelPath.fullTagname]
+    have hv : isFQM (ModelPath.toName ⟨sHttps, r.host, r.ns, r.model, r.tag⟩) = true := by
+      simpa [ModelPath.toName] using hfq
+    unfold handlerManifestPath
+    rw [e, (modelpath_print_parse _ hv).1]
+    rcases manifest_path_confined_anyroot root hroot ⟨sHttps, r.host, r.ns, r.model, r.tag⟩ with h | ⟨h, _, _⟩
+    · exfalso
+      have hf := ((filepath_shape _).2 hv).1
+      simp [mpManifestPath, hf] at h
+    · exact h
+
+/-- **`/api/blobs/:digest` (HEAD and POST), every layer digest of an untrusted manifest (`GetModel`, `PullModel`,
+    `create`'s `files` map), `NewLayer`'s own digest**: for every digest string and every models-directory string
+    `GetBlobsPath` refuses, or (empty string) names the blobs directory, or names `blobs/sha256-<64 hex>` below `Clean(models)`. -/
+theorem blob_handler_confined (root : Bytes) (hroot : root ≠ []) (d : Bytes) :
+    getBlobsPath root d = none ∨
+    (d = [] ∧ getBlobsPath root d = some (renderPath (isRooted root) (rootStack root ++ [sBlobs]))) ∨
+    ∃ hex, hex.length = 64 ∧ (∀ c ∈ hex, isHexB c = true) ∧ SafeComp (sSha256 ++ cDash :: hex) ∧
+      getBlobsPath root d = some (renderPath (isRooted root) (rootStack root ++ [sBlobs, sSha256 ++ cDash :: hex])) := by
+  cases d with
+  | nil => exact Or.inr (Or.inl ⟨rfl, blob_path_empty_anyroot root hroot⟩)
+  | cons x xs =>
+    rcases blob_path_confined_anyroot root hroot (x :: xs) (by simp) with h | h
+    · exact Or.inl h
+    · exact Or.inr (Or.inr h)
+
+/-- … for all layers of a manifest at once -/
+theorem manifest_layers_confined (root : Bytes) (hroot : root ≠ []) (layers : List Bytes) :
+    ∀ d ∈ layers, getBlobsPath root d = none ∨
+      (d = [] ∧ getBlobsPath root d = some (renderPath (isRooted root) (rootStack root ++ [sBlobs]))) ∨
+      ∃ hex, hex.length = 64 ∧ (∀ c ∈ hex, isHexB c = true) ∧ SafeComp (sSha256 ++ cDash :: hex) ∧
+        getBlobsPath root d = some (renderPath (isRooted root) (rootStack root ++ [sBlobs, sSha256 ++ cDash :: hex])) :=
+  fun d _ => blob_handler_confined root hroot d
+
+/-- **The new client's handlers** (`server/internal/registry` handleDelete / handlePull → `Registry.Unlink` / `Pull` →
+    `Registry.parseName` with `DefaultMask` or any mask, then `DiskCache.Unlink / Link (n.String())`): for every request
+    string, `ErrNameInvalid`, or the manifest the cache addresses is a `ConfinedManifest` of the cache directory. -/
+theorem registry_handler_confined (rc : List Bytes) (hrc : rc ≠ []) (hs : ∀ c ∈ rc, CleanComp c)
+    (links : List Bytes) (hl : ∀ l ∈ links, GlobLink l) (mask : Name) (s : Bytes) :
+    registryParseName mask s = none ∨
+    ∃ n p, registryParseName mask s = some n ∧ manifestPath (absPath rc) links (toStr n) = some p ∧ ConfinedManifest rc p := by
+  cases h : registryParseName mask s with
+  | none => exact Or.inl rfl
+  | some n =>
+    right
+    have hfq : isFQN n = true := by
+      simp only [registryParseName] at h
+      by_cases hq : isFQN (merge (parseN s) mask) = true
+      · simp only [hq, if_true, Option.some.injEq] at h; rw [← h]; exact hq
+      · simp [hq] at h
+    rcases names_manifestPath_confined rc hrc hs links hl (toStr n) with hnone | ⟨p, hp, hc, _⟩
+    · exfalso
+      have := (names_manifestPath_accepts_iff (absPath rc) links (toStr n))
+      have hpp : parseN (toStr n) = n := print_parse_names n hfq
+      simp [manifestPath, nameToPath, hpp, hfq] at hnone
+      cases hfind : links.find? (equalFold (pathJoin [sManifests, pathJoin [n.host, n.ns, n.model, n.tag]])) <;> simp [hfind] at hnone
+    · exact ⟨n, p, rfl, hp, hc⟩
+
+
+/-! ## 23. the digest clause for every digest parser -/
+
+
+theorem hexNibble_lower_fin : ∀ n : Fin 256, hexNibble (toLowerB (UInt8.ofNat n.val)) = hexNibble (UInt8.ofNat n.val) := by
+  decide +kernel
+
+theorem hexNibble_lower (c : UInt8) : hexNibble (toLowerB c) = hexNibble c := by
+  have := hexNibble_lower_fin ⟨c.toNat, c.toNat_lt⟩
+  simpa using this
+
+/-- `hex.Decode` does not look at the letter case -/
+theorem hexDecode_lower : ∀ hex : Bytes, hexDecode (hex.map toLowerB) = hexDecode hex
+  | [] => rfl
+  | [_] => rfl
+  | a :: b :: rest => by
+    simp only [List.map_cons, hexDecode, hexNibble_lower, hexDecode_lower rest]
+
+theorem parseDigest_shape (sep : UInt8) (hsep : sep = cColon ∨ sep = cDash) (hex : Bytes) :
+    parseDigest (sSha256 ++ sep :: hex) = if hex.length = 64 then hexDecode hex else none := by
+  have hs : splitFirst (fun c => c == cColon || c == cDash) (sSha256 ++ sep :: hex) = some (sSha256, hex, sep) := by
+    apply splitFirst_append
+    · rcases hsep with rfl | rfl <;> decide
+    · decide
+  unfold parseDigest
+  simp only [hs]
+  by_cases hl : hex.length = 64 <;> simp [hl]
+
+/-- **One digest, one blob (new cache)**: the four spellings of a digest — `sha256:` / `sha256-`, the hex digits in any
+    letter case — are parsed to the same `Digest` value, hence address the same blob file; a string that is not such a
+    spelling is rejected (`digest_validators_agree`, `digest_re_shape`). -/
+theorem digest_spellings_same_file_cache (dir : Bytes) (sep1 sep2 : UInt8) (h1 : sep1 = cColon ∨ sep1 = cDash)
+    (h2 : sep2 = cColon ∨ sep2 = cDash) (hex : Bytes) :
+    parseDigest (sSha256 ++ sep1 :: hex) = parseDigest (sSha256 ++ sep2 :: hex.map toLowerB) ∧
+    (parseDigest (sSha256 ++ sep1 :: hex)).map (getFile dir) = (parseDigest (sSha256 ++ sep2 :: hex.map toLowerB)).map (getFile dir) := by
+  have e : parseDigest (sSha256 ++ sep1 :: hex) = parseDigest (sSha256 ++ sep2 :: hex.map toLowerB) := by
+    rw [parseDigest_shape sep1 h1, parseDigest_shape sep2 h2, hexDecode_lower, List.length_map]
+  exact ⟨e, by rw [e]⟩
+
+/-- **One digest, one blob (legacy store), partial**: the two SEPARATOR spellings address the same file for every digest
+    string; the letter case of the hex digits is kept in the file name, so `sha256:AA…` and `sha256:aa…` are two files
+    (`legacy_hex_case_witness`) — guard: same hex spelling.  The digests the server itself prints (`NewLayer`: `%x`) are
+    lower case. -/
+theorem digest_spellings_same_file_legacy_partial (root hex : Bytes) :
+    getBlobsPath root (sSha256 ++ cColon :: hex) = getBlobsPath root (sSha256 ++ cDash :: hex) := by
+  have := canonical_same_blob root (sSha256 ++ cDash :: hex)
+  have hc : canonicalDigest (sSha256 ++ cDash :: hex) = sSha256 ++ cColon :: hex := by
+    simp [canonicalDigest, sSha256, cDash, cColon]
+  rw [hc] at this; exact this
+
+/-- `NewLayer`'s own digest (`sha256:%x` of a 32-byte sum) is always accepted by `GetBlobsPath` -/
+theorem newLayer_digest_accepted (sum : Bytes) (h : sum.length = 32) : matchDigestRe (digestString sum) = true := by
+  have hl : (hexEncode sum).length = 64 := by
+    have : ∀ l : Bytes, (hexEncode l).length = 2 * l.length := by
+      intro l; induction l with
+      | nil => rfl
+      | cons x xs ih => simp only [hexEncode, List.flatMap_cons, List.length_append, List.length_cons, List.length_nil] at ih ⊢; omega
+    rw [this, h]
+  have hh := hexEncode_hex sum
+  unfold digestString
+  rw [matchDigestRe_shape]
+  simp [hl, List.all_eq_true, cColon, cDash]
+  exact hh
+
+/-- **The digest clause, every digest parser of the tree, one string `s`**: (1) the legacy regexp + `GetBlobsPath` under any
+    models directory; (2) `blob.ParseDigest` + `GetFile` (also what a digest suffix `name@sha256:…` goes through: `cacheResolve_confined`, `parseNameExtended`); (3) the two validators accept the same language. -/
+theorem digest_clause_all (root : Bytes) (hroot : root ≠ []) (rc : List Bytes) (hrc : rc ≠ []) (hs : ∀ c ∈ rc, CleanComp c)
+    (s : Bytes) :
+    (getBlobsPath root s = none ∨
+      (s = [] ∧ getBlobsPath root s = some (renderPath (isRooted root) (rootStack root ++ [sBlobs]))) ∨
+      ∃ hex, hex.length = 64 ∧ (∀ c ∈ hex, isHexB c = true) ∧
+        getBlobsPath root s = some (renderPath (isRooted root) (rootStack root ++ [sBlobs, sSha256 ++ cDash :: hex]))) ∧
+    (parseDigest s = none ∨ ∃ sum, parseDigest s = some sum ∧
+      getFile (absPath rc) sum = absPath (rc ++ [sBlobs, sSha256 ++ cDash :: hexEncode sum])) ∧
+    (matchDigestRe s = (parseDigest s).isSome) := by
+  refine ⟨?_, ?_, digest_validators_agree s⟩
+  · cases s with
+    | nil => exact Or.inr (Or.inl ⟨rfl, blob_path_empty_anyroot root hroot⟩)
+    | cons x xs =>
+      rcases blob_path_confined_anyroot root hroot (x :: xs) (by simp) with h | ⟨hex, a, b, _, c⟩
+      · exact Or.inl h
+      · exact Or.inr (Or.inr ⟨hex, a, b, c⟩)
+  · cases h : parseDigest s with
+    | none => exact Or.inl rfl
+    | some sum => exact Or.inr ⟨sum, rfl, (blob_path_confined_cache rc hrc hs sum).1⟩
+
+example : parseDigest (sSha256 ++ cDash :: List.replicate 64 65) = parseDigest (sSha256 ++ cColon :: List.replicate 64 97) ∧
+    parseDigest (sSha256 ++ cDash :: List.replicate 64 65) ≠ none := by decide
+
+
 end OllamaVerif.C13
